@@ -40,7 +40,9 @@ ASSUMPTIONS = [
     "exp (Parzen window) and log (entropies) of mi_loss are computed by the harness in float64 and passed to the "
     "model as tables keyed by argument; the model checks that every argument it forms is in the table (1e-11 rel.)",
     "mi_loss is modelled without random sampling (num_samples/sample_ratio None) and for C = 1 "
-    "(the code's `x.sub(bin_center)` only broadcasts for C = 1); tversky_index without normalize (sigmoid/softmax)",
+    "(the code's `x.sub(bin_center)` only broadcasts for C = 1); tversky_index without normalize (sigmoid/softmax); "
+    "label-map targets of multi-class predictions are integral (the code requires an int64 tensor for `scatter_`; the "
+    "stream sends them as `long`)",
     "masks/weights sum to a non-zero value; windows are non-degenerate for the affine-invariance oracle",
     "torch primitives (avg_pool*d, broadcasting, sum/mean, round, linspace, bmm) behave as documented; "
     "avg_pool and broadcasting are re-checked against torch on every run (stream `prim`)",
@@ -81,6 +83,8 @@ def _values(r: random.Random, n: int, kind: str, f32: bool) -> List[float]:
         v = [float(r.random() < 0.5) for _ in range(n)]
     elif kind == "prob":
         v = [r.choice([0.0, 1.0, r.random(), r.random()]) for _ in range(n)]
+    elif kind.startswith("labels"):
+        v = [float(r.randrange(int(kind[6:]))) for _ in range(n)]
     elif kind == "const":
         v = [1.5] * n
     else:
@@ -543,6 +547,16 @@ def line_dice(c):
 
 
 def cmp_dice(c, r, out):
+    if c["eps"] == 0.0 and isinstance(r, dict) and any(v != v for v in map(float, r.get("values", []))):
+        # epsilon = 0 and an item/channel whose (weighted) prediction and target are both empty: 0/0. The code returns
+        # nan; Lean's total division returns 0 — the quotient is undefined, outside every theorem's hypothesis
+        # (`C16_dice_*` require a positive denominator), so neither value is compared. The zero denominator is
+        # re-established independently here before the case is set aside.
+        x, y, m = _build(c, f32=True)
+        w = torch.ones_like(x) if m is None else m.to(x.dtype).expand_as(x) if m.dim() == x.dim() else m.unsqueeze(1).to(x.dtype).expand_as(x)
+        den = (x * w).flatten(2).sum(2) + (y * w).flatten(2).sum(2)
+        if bool((den == 0).any()):
+            return None
     return _cmp(r, out, RTOL32, c["shape"][:2] if (c["red"] or "mean") == "none" else [])
 
 
@@ -551,7 +565,7 @@ def gen_tversky(rng, tier):
     for _ in range(_n(tier, 160, 2000)):
         shape = _shape(rng, maxc=3)
         N, C, sp = shape[0], shape[1], shape[2:]
-        tform = rng.choice(["same", "same", "same", "single", "two", "labels"])
+        tform = rng.choice(["same", "same", "single", "two", "labels", "labels"])
         tshape = {"same": shape, "single": [N, 1] + sp, "two": [N, 2] + sp, "labels": [N] + sp}[tform]
         wk = rng.choice([None, None, "full", "n1", "nosp", "11", "badchan"])
         ab = rng.choice([(None, None), (0.5, 0.5), (0.3, 0.7), (0.7, None), (None, 0.25), (1.0, 1.0), (0.0, 1.0)])
@@ -560,7 +574,13 @@ def gen_tversky(rng, tier):
              "seed": _seed(rng), "vkind": rng.choice(["prob", "binary", "uniform"]),
              "ykind": rng.choice(["binary", "binary", "prob"]), "eps": rng.choice([1e-15, 1e-15, 2.0 ** -10, 1.0]),
              "alpha": ab[0], "beta": ab[1], "binarize": rng.random() < 0.3, "red": rng.choice(REDS + [None]),
-             "gamma": rng.choice([None, None, 0.0, 1.0, 2.0, 3.0, 1.5, 2.5, 0.5]), "opt": True}
+             "gamma": rng.choice([None, None, 0.0, 1.0, 2.0, 3.0, 1.5, 2.5, 0.5]), "opt": True, "tform": tform}
+        if tform == "labels" and C > 1:
+            # multi-class prediction + label map (N, ..., X): one-hot encoded by the code (int64 labels required);
+            # occasionally one label outside [0, C) -> scatter_ raises RuntimeError
+            c["ykind"] = f"labels{C}"
+            c["longlabels"] = True
+            c["badlabel"] = rng.choice([None] * 7 + [C, -1])
         yield c
 
 
@@ -581,8 +601,17 @@ def _ab(c):
     return a, b
 
 
-def impl_tversky(c):
+def _tv_xy(c):
     x, y, _ = _build({**c, "mask": None}, f32=True)
+    if c.get("longlabels"):
+        y = y.long()
+        if c.get("badlabel") is not None:
+            y.view(-1)[y.numel() // 2] = c["badlabel"]
+    return x, y
+
+
+def impl_tversky(c):
+    x, y = _tv_xy(c)
     w = _tv_mask(c, x)
     kw = {} if c["red"] is None else {"reduction": c["red"]}
     if c["loss"] == "tversky_loss":
@@ -593,7 +622,7 @@ def impl_tversky(c):
 
 
 def line_tversky(c):
-    x, y, _ = _build({**c, "mask": None}, f32=True)
+    x, y = _tv_xy(c)
     w = _tv_mask(c, x)
     a, b = _ab(c)      # tversky_index @249-254 (Python glue)
     red = c["red"] or "mean"
@@ -723,7 +752,8 @@ STREAMS = [
            doc="dice_score / dice_loss / Dice: weights of every broadcastable shape, eps (incl. 0), reductions"),
     Stream("tversky", gen_tversky, impl_tversky, line_tversky, cmp_tversky, nontrivial=_nontrivial,
            doc="tversky_index: alpha/beta defaults, binarize, target formats (same/single/two-channel/labels), weight "
-               "formats; tversky_loss = (1 - TI)^gamma with gamma None/0/1/integral/non-integral (tabulated)/< 1 (rejected)"),
+               "formats; label maps of multi-class predictions (one-hot by the code, incl. out-of-range labels); "
+               "tversky_loss = (1 - TI)^gamma with gamma None/0/1/integral/non-integral (tabulated)/< 1 (rejected)"),
     Stream("mi", gen_mi, impl_mi, line_mi, cmp_mi, nontrivial=_nontrivial,
            doc="mi_loss / nmi_loss / MI / NMI: bins, vmin/vmax given or derived, masks; exp/log tabulated"),
 ]
@@ -1008,6 +1038,31 @@ def check_overlap(c):
     same = L.tversky_loss(x, x.clone(), weight=w, alpha=0.3, beta=0.7, gamma=2.0, reduction="none")
     if _maxabs(same) > 1e-6:
         return ("C16:tversky_loss:identical", f"tversky_loss(x, x) = {same.flatten().tolist()}")
+    # the documented target / prediction encodings of one binary segmentation: foreground channel (N,1,..), one-hot
+    # (N,2,..) and label map (N,..). A segmentation compared with itself gives 1 in every mixed encoding, and the index of
+    # two segmentations does not depend on the encoding either is given in.
+    if x.shape[1] == 1 and w is None:
+        x2, y2 = torch.cat([1 - x, x], 1), torch.cat([1 - y, y], 1)
+        enc = {"pred1-target2": (x, y2), "pred2-target1": (x2, y), "pred2-target2": (x2, y2)[:2] and (x2, y2),
+               "pred1-labels": (x, y.squeeze(1)), "pred2-labels": (x2, y.squeeze(1).long())}
+        ident = {"pred1-target2": (x, x2), "pred2-target1": (x2, x), "pred1-labels": (x, x.squeeze(1)),
+                 "pred2-labels": (x2, x.squeeze(1).long())}
+        for k, (a, b) in ident.items():
+            try:
+                ti = L.tversky_index(a, b.clone(), alpha=0.3, beta=0.7, reduction="none")
+            except ValueError as e:
+                # F-16f (repaired by 03f6276): multi-class prediction + label map raised in as_one_hot_tensor
+                return (f"C16:tversky:identical:{k}", f"tversky_index(prediction {list(a.shape)}, target "
+                        f"{list(b.shape)} [{k}]) raises ValueError: {e}")
+            ti = ti[:, -1:]                                     # foreground class
+            if _maxabs(ti - 1) > 1e-6:
+                return (f"C16:tversky:identical:{k}", f"tversky_index of a segmentation with itself ({k}) = {ti.flatten().tolist()}")
+        ref = L.tversky_index(x, y, alpha=0.3, beta=0.7, reduction="none")
+        for k, (a, b) in enc.items():
+            ti = L.tversky_index(a, b, alpha=0.3, beta=0.7, reduction="none")[:, -1:]
+            if _maxabs(ti - ref) > 1e-5:
+                return (f"C16:tversky:encoding:{k}", f"tversky_index differs between encodings: {k} gives "
+                        f"{ti.flatten().tolist()}, foreground channels give {ref.flatten().tolist()}")
     return None
 
 
